@@ -394,6 +394,8 @@ class CallMixin:
     def bi_tuple(self, args, kwargs, node, fr):
         if not args:
             return PTuple([])
+        if isinstance(args[0], (SColl, UList)):
+            return args[0]
         seq = self.concrete_seq(args[0])
         if seq is not None:
             return PTuple(seq)
@@ -404,6 +406,8 @@ class CallMixin:
     def bi_list(self, args, kwargs, node, fr):
         if not args:
             return PList([])
+        if isinstance(args[0], (SColl, UList)):
+            return args[0]  # a copy of a symbolic collection iterates like the collection
         seq = self.concrete_seq(args[0])
         if seq is not None:
             return PList(seq)
